@@ -213,6 +213,21 @@ def sendNodes (G : CallGraph) : List Nat := G.sends.map (·.1)
 def timerEnqueueCheck (G : CallGraph) : Bool :=
   G.timerRoots.all fun t => (sendNodes G).any (memB (fwd G.calls G.names.length (ofListB [t])))
 
+/-! ### diagnostics (printed by an `#eval` in `Props/C04.lean` when an obligation fails; not part of any proof) -/
+
+def offenders (G : CallGraph) : List String :=
+  ((spawnedRoots G).filter (memB (danger G))).map (fun i => "goroutine " ++ nameOf G i) ++
+  ((G.exported.filter fun i => memB (danger G) i && !(loopSideAPI.contains (nameOf G i))).map (nameOf G))
+
+def unreviewed (G : CallGraph) : List String :=
+  (G.keys.filter fun k => !(svcKeys.contains k || utilKeys.contains k)) ++
+  (G.kinds.filter fun k => !(reviewedLitKinds.contains k)) ++ G.odd ++
+  ((G.directCalls.filter fun e => !(directModeAPI.contains (nameOf G e.1))).map fun e => "direct-mode call in " ++ nameOf G e.1) ++
+  ((G.facts.filter fun f => !f.2).map fun f => "fact no longer holds: " ++ f.1)
+
+def offLoop (G : CallGraph) : List String :=
+  (((loopSites G) ++ (postedLits G)).filter fun n => !(memB (loopReach G) n)).map (nameOf G)
+
 def allChecks (G : CallGraph) : Bool :=
   reviewedCheck G && entryCheck G && wiringCheck G && timerEnqueueCheck G
 
